@@ -1,4 +1,14 @@
 import AtreeProofs.ArrayInv
-/- Helper lemmas for the array model (arithmetic layer, slab layer, tree layer). -/
-namespace Atree
-end Atree
+import AtreeProofs.Array.Arith
+import AtreeProofs.Array.ListLemmas
+import AtreeProofs.Array.SlabLemmas
+import AtreeProofs.Array.TreeDefs
+import AtreeProofs.Array.MetaLemmas
+import AtreeProofs.Array.Group
+import AtreeProofs.Array.Uniform
+import AtreeProofs.Array.Restructure
+import AtreeProofs.Array.MergeRebal
+import AtreeProofs.Array.Route
+import AtreeProofs.Array.TreeOps
+/- Helper lemmas for the array model (arithmetic layer, slab layer, tree layer): see
+   `AtreeProofs/Array/*.lean`. -/
